@@ -20,6 +20,8 @@ def main(argv):
 
     from . import covmon
     covmon.start()          # before the implementation is imported: module-level lines count too
+    if os.environ.get('VERIF_ARGCOV'):
+        covmon.start_args()
     from . import build as buildmod, engine
     from .props import PROPS, TRUSTED_BASE, COMMON_ASSUMPTIONS
     cfg = PROPS[prop]
